@@ -203,14 +203,19 @@ def special_routing_case(ctx, rng, case, cfg, fam, pol):
     sync_children = set()
     if fam == "sync-child":
         ctx.count("sync_child_runs")
-        form = rng.choice(["startExecution.sync", "startExecution.sync:2", "startExecution"])
-        parent = {"StartAt": "Call", "States": {"Call": {"Type": "Task", "Resource": "arn:aws:states:local::states:" + form,
+        form = rng.choice(["startExecution.sync", "startExecution.sync:2", "startExecution", "sfn:startSyncExecution", "startExecution.waitForTaskToken"])
+        rtype = "aws-sdk" if form.startswith("sfn:") else "states"
+        ctx.count("child_form:" + form)
+        parent = {"StartAt": "Call", "States": {"Call": {"Type": "Task", "Resource": "arn:aws:states:local::%s:%s" % (rtype, form),
                                                           "Parameters": {"StateMachineArn": "arn:aws:states:local:0123456789:stateMachine:c", "Input": {"k.$": "$.x"}, "Name.$": "$.child"},
                                                           "ResultPath": "$.r", "Next": "After"}, "After": {"Type": "Task", "Resource": FN + "echo", "End": True}}}
         starts = [{"machine": "p", "name": "pe%d" % i, "input": {"x": i, "child": "ce%d" % i}} for i in range(rng.randint(1, 3))]
         if form != "startExecution":
             sync_children = {"arn:aws:states:local:0123456789:execution:c:ce%d" % i for i in range(len(starts))}
-        scn = {"machines": {"c": {"asl": child}, "p": {"asl": parent}}, "funcs": dict(F.FUNCS), "starts": starts, "config": cfg}
+        scn = {"machines": {"c": {"asl": child, "type": "EXPRESS" if form.startswith("sfn:") else "STANDARD"}, "p": {"asl": parent}}, "funcs": dict(F.FUNCS), "starts": starts,
+               "config": cfg}
+        if form == "startExecution.waitForTaskToken":
+            parent["States"]["Call"]["TimeoutSeconds"] = 30          # nobody answers the token here: the launch itself is what is observed
         hooks = []
     else:
         parent = {"StartAt": "T", "States": {"T": {"Type": "Task", "Resource": "arn:aws:states:local::rpcmessage:invoke.waitForTaskToken",
